@@ -334,6 +334,8 @@ LEAVES = [
     # absolute
     "http://b.c", "http://b.c/", "https://b.c/x?y=1&z=2#f", "https://b.c/x%20y", "https://", "http://", "https:///",
     "HTTP://b.c/", "https://bé.c/é", "http://b.c/?u=", "https://u:p@b.c:81/x",
+    # the shortest absolute targets (one character after the scheme)
+    "http://a", "https://a", "http:///", "http://?",
     # scheme-less
     "b.c/x", "www.b.c", "b.c/x?y=1",
     # relative
